@@ -689,6 +689,9 @@ func (r *runner) finalChecks() {
 	if r.has("no-5xx-without-fault") {
 		r.addV(checkNo5xx(r)...)
 	}
+	if r.has("reads-are-scoped") {
+		r.addV(checkReadsAreScoped(r)...)
+	}
 	if r.has("reads-respect-features") {
 		r.addV(checkReadsRespectFeatures(r)...)
 	}
